@@ -9,52 +9,78 @@ import (
 )
 
 func (e *kvElection) watchLoop(ctx context.Context) {
-	watcher, err := e.kv.Watch(e.key)
-	if err != nil {
+	// The periodic check is the follower's safety net and must run for as
+	// long as the election does - with or without a working watch. A failed
+	// Watch call or a watch channel closed by the server only costs the
+	// notifications; the watch is re-established by a later periodic check.
+	checkTicker := time.NewTicker(500 * time.Millisecond)
+	defer checkTicker.Stop()
+
+	var watcher Watcher
+	var updates <-chan Entry
+
+	stopWatcher := func() {
+		if watcher != nil {
+			watcher.Stop()
+			watcher = nil
+			updates = nil
+		}
+	}
+	defer stopWatcher()
+
+	startWatcher := func() {
+		w, err := e.kv.Watch(e.key)
+		if err != nil {
+			log := e.getLogger()
+			log.Error("watch_failed",
+				append(e.logWithContext(ctx),
+					zap.Error(err),
+					zap.String("key", e.key),
+				)...,
+			)
+			return
+		}
+		watcher = w
+		updates = w.Updates()
+
 		log := e.getLogger()
-		log.Error("watch_failed",
+		log.Debug("watch_started",
 			append(e.logWithContext(ctx),
-				zap.Error(err),
 				zap.String("key", e.key),
 			)...,
 		)
-		return
 	}
-	defer watcher.Stop()
-
-	log := e.getLogger()
-	log.Debug("watch_started",
-		append(e.logWithContext(ctx),
-			zap.String("key", e.key),
-		)...,
-	)
-
-	checkTicker := time.NewTicker(500 * time.Millisecond)
-	defer checkTicker.Stop()
+	startWatcher()
 
 	for {
 		select {
 		case <-ctx.Done():
 			return
-		case entry, ok := <-watcher.Updates():
+		case entry, ok := <-updates:
 			if !ok {
 				log := e.getLogger()
 				log.Debug("watch_closed",
 					e.logWithContext(ctx)...,
 				)
+				// The subscription is gone; there is nothing left to stop.
+				watcher = nil
+				updates = nil
 				// When watcher closes, check if key still exists
 				// If not, trigger re-election
 				if !e.IsLeader() {
-					e.wg.Add(1)
-					go func() {
-						defer e.wg.Done()
-						e.checkKeyAndReelect(ctx)
-					}()
+					e.checkKeyAndReelect(ctx)
 				}
-				return
+				continue
 			}
 			e.handleWatchEvent(ctx, entry)
 		case <-checkTicker.C:
+			// select picks at random when the context is done and a tick is due
+			if ctx.Err() != nil {
+				return
+			}
+			if watcher == nil {
+				startWatcher()
+			}
 			// Periodic check: if we're a follower and key doesn't exist, trigger re-election
 			// This handles cases where NATS watchers don't send deletion events
 			if !e.IsLeader() {
